@@ -21,6 +21,42 @@ pub fn run(cfg: &RunCfg, agg: &Mutex<Agg>) {
     run_cases(agg, cfg, "decoder-alloc", crate::count(cfg, 1500, 30_000), |cs, out| {
         history(cs, out, false);
     });
+    // objects that hold far more than they need: 128-256 MiB at the larger
+    // scale, then a configuration of a few KiB, then back
+    run_cases(agg, cfg, "huge-alloc", if cfg.thorough { 12 } else { 2 }, |cs, out| {
+        HUGE.with(|h| h.set(true));
+        history(cs, out, cs % 2 == 0);
+        HUGE.with(|h| h.set(false));
+    });
+}
+
+thread_local! {
+    static HUGE: std::cell::Cell<bool> = const { std::cell::Cell::new(false) };
+}
+
+fn plan_huge(rng: &mut Rng) -> Vec<Step> {
+    let api = pick_api(rng, true);
+    let (k, r) = *rng.pick(&[(8usize, 8usize), (6, 10), (12, 4)]);
+    let big = (2usize << 20) + 64 * rng.below(3);
+    let mut v = vec![Step::New(api, k, r, big), Step::Round, Step::Reset(k, r, 64), Step::Round];
+    if rng.chance(1, 2) {
+        v.push(Step::Round);
+    }
+    if rng.chance(1, 2) {
+        v.push(Step::Abandon);
+    }
+    v.push(Step::Reset(k, r, big));
+    v.push(Step::Round);
+    if api != Api::Wrapper {
+        let api2 = pick_api(rng, false);
+        if gen::rate_ok(api_rate(api2), k, r) {
+            v.push(Step::Recycle(api2, k, r, 64));
+            v.push(Step::Round);
+            v.push(Step::Recycle(api2, k, r, big));
+            v.push(Step::Round);
+        }
+    }
+    v
 }
 
 #[derive(Clone, Debug)]
@@ -340,7 +376,10 @@ fn execute(plan: &[Step], scale: usize, data_seed: u64, encoder: bool) -> Result
 
 fn history(case_seed: u64, out: &mut CaseOut, encoder: bool) {
     let mut rng = Rng::new(case_seed);
-    let plan = plan(&mut rng);
+    let plan = if HUGE.with(|h| h.get()) { plan_huge(&mut rng) } else { plan(&mut rng) };
+    if HUGE.with(|h| h.get()) {
+        out.tag("huge-history");
+    }
     let data_seed = rng.next_u64();
     let kind = if encoder { "encoder" } else { "decoder" };
     let descr: Vec<String> = plan.iter().map(|s| format!("{s:?}")).collect();
